@@ -471,7 +471,10 @@ def enumerate_jobs(tier, seed):
                 cc[d1] = r1
                 sc[d2] = r2
                 for ci, cr in enumerate(SERVER_CREDS):
-                    if cr != "rsa" and ((d1, d2) not in full or ((len(jobs) + seed + ci) % 3 and tier == "quick")):
+                    # a restriction on ONE side only runs with every credential (no sampling: 160 settings pairs)
+                    one_sided = r1 is None or r2 is None
+                    if cr != "rsa" and not one_sided and \
+                            ((d1, d2) not in full or ((len(jobs) + seed + ci) % 3 and tier == "quick")):
                         continue
                     add(cc, sc, cr)
     # the key exchange forced on the client side, per version range, against every group / key-size restriction of the
